@@ -54,12 +54,42 @@ theorem evaluation_on_one_goroutine : Generated.Query.concurrencySites.getD [] =
 
 /-- `evalTop_no_panic`.  With the deferred recover in `Engine.Evaluate` (regenerated flag) no
     evaluation ends in a panic, for every program, every document list and every fuel. -/
+theorem recoverNoDocs_true (o : Outcome Val) : recoverNoDocs true o = o := by
+  cases o with
+  | error k =>
+    cases k with
+    | recovered p => cases p <;> rfl
+    | _ => rfl
+  | _ => rfl
+
+/-- the driver's `topOf` is `evalTop`: what the correspondence compares is what the theorems are about -/
+theorem evalTop_eq_topOf (now fuel : Nat) (docs : List Forest) (eng : Engine) :
+    evalTop now fuel docs eng = topOf (evalRaw now Generated.Query.cycleGuard fuel docs eng) := rfl
+
+theorem evalTop_eq_with (now fuel : Nat) (docs : List Forest) (eng : Engine) :
+    evalTop now fuel docs eng = evalTopWith now true Generated.Query.cycleGuard fuel docs eng := by
+  have h1 : Generated.Query.evaluateRecovers = true := by decide
+  have h2 : Generated.Query.evaluateRecoversNoDocuments = true := by decide
+  unfold evalTop
+  rw [h1, h2, recoverNoDocs_true]
+
 theorem evalTop_no_panic (now fuel : Nat) (docs : List Forest) (eng : Engine) (p : PanicSite) :
     evalTop now fuel docs eng ≠ .panic p := by
-  have hflag : Generated.Query.evaluateRecovers = true := by decide
-  unfold evalTop evalTopWith
-  rw [hflag]
+  rw [evalTop_eq_with]
+  unfold evalTopWith
   cases evalRaw now Generated.Query.cycleGuard fuel docs eng <;> simp [recoverOutcome]
+
+/-- with no documents at all (`Evaluate(nil)`, `Evaluate([]*Document{})`) the index panic of
+    `documents[0]` is an error, for every program — the recover is installed before the first
+    document is taken (regenerated flag `evaluateRecoversNoDocuments`) -/
+theorem evalTop_no_documents (now fuel : Nat) (eng : Engine) :
+    evalTop now fuel [] eng = .error (.recovered .noDocuments) := by
+  rw [evalTop_eq_with]; rfl
+
+/-- the statement is false of an `Evaluate` that takes `documents[0]` outside its recover -/
+theorem no_documents_counterexample (o : Outcome Val) (h : o = .error (.recovered .noDocuments)) :
+    recoverNoDocs false o = .panic .noDocuments := by
+  subst h; rfl
 
 /-- what the recover does: a panic becomes an error, everything else is unchanged -/
 theorem recover_spec (o : Outcome Val) :
@@ -306,8 +336,7 @@ theorem cyclic_guarded (now n : Nat) (recovers : Bool) :
 /-- the evaluator of the current tree (regenerated flags) reports the cycle as an error -/
 theorem cyclic_is_error_now (now : Nat) : evalTop now (defaultFuel [[]] cyclic) [[]] cyclic = .error .cycle := by
   have h1 : Generated.Query.cycleGuard = true := by decide
-  unfold evalTop
-  rw [h1]
+  rw [evalTop_eq_with, h1]
   exact cyclic_guarded now 3 _
 
 /-! #### with the cycle guard every program terminates -/
@@ -384,8 +413,7 @@ theorem guard_terminates (now : Nat) (eng : Engine) (docs : List Forest) (fuel :
 theorem evalTop_terminates (now : Nat) (docs : List Forest) (eng : Engine) :
     evalTop now (defaultFuel docs eng) docs eng ≠ .diverged := by
   have h1 : Generated.Query.cycleGuard = true := by decide
-  unfold evalTop
-  rw [h1]
+  rw [evalTop_eq_with, h1]
   exact guard_terminates now eng docs _ (by unfold defaultFuel; omega) _
 
 /-! ### formatters -/
